@@ -35,7 +35,7 @@ def check_disambiguation(run, fx):
         return
     ev = H.Evaluator(fx)
     ev.inline = lambda p: p.startswith("temporal_rs::error::")
-    lst = next((p["name"] for p in f.params if p["ty"].startswith("alloc::vec::Vec<")), None)
+    lst = next((p["name"] for p in f.params if p["ty"].startswith("alloc::vec::Vec<") or p["ty"].lstrip("&").startswith("[")), None)
     dpi = next((i for i, p in enumerate(f.params) if p["ty"].endswith("options::Disambiguation")), None)
     if lst is None or dpi is None:
         run.anchor_missing(rule, "params", "candidate list / disambiguation parameters not found")
